@@ -1307,6 +1307,48 @@ pub fn replay(j: &J) -> Result<J, String> {
         }
         r
     };
+    // sweep cases record the caller's chunks only ("loop": true): expand them into the calls of the
+    // documented loop (same capacity, unconsumed input re-pushed until InputEmpty)
+    let mut calls = calls;
+    if j.get("loop").and_then(|x| x.as_bool()) == Some(true) {
+        let chunks = std::mem::take(&mut calls);
+        for ch in chunks {
+            let mut cur = ch.clone();
+            for _ in 0..8 * ch.units.len() + 64 {
+                calls.push(cur.clone());
+                let r = run_calls(&cfg, &calls)?;
+                if r.panic.is_some() {
+                    break;
+                }
+                let o = match r.obs.last() {
+                    Some(o) => o,
+                    None => break,
+                };
+                if o.res == ERes::InputEmpty {
+                    break;
+                }
+                // `read` counts bytes (UTF-8 source) or code units (UTF-16 source)
+                let mut left = o.read;
+                let mut idx = 0;
+                while idx < cur.units.len() && left > 0 {
+                    let c = cur.units[idx];
+                    let n = if source == Source::Utf8 {
+                        if c < 0x80 { 1 } else if c < 0x800 { 2 } else if c < 0x10000 { 3 } else { 4 }
+                    } else if c >= 0x10000 { 2 } else { 1 };
+                    if n > left {
+                        break;
+                    }
+                    left -= n;
+                    idx += 1;
+                }
+                if left != 0 {
+                    break;
+                }
+                cur.units = cur.units[idx..].to_vec();
+                cur.fresh = false;
+            }
+        }
+    }
     let a = run_calls(&cfg, &calls)?;
     let b = run_calls(&cfg, &calls)?;
     let (ja, jb) = (render(&a), render(&b));
